@@ -28,6 +28,14 @@ Definition nonempty_hex_json (j : option json) : option str :=
   | _ => None
   end.
 
+(* auth_data of an attestation key element: hex, and (since fix 36570d0) possibly empty *)
+Definition hex_or_empty_json (j : option json) : option str :=
+  match j with
+  | Some (JStr []) => Some []
+  | Some (JStr x) => if is_nonempty_hex_string x then Some x else None
+  | _ => None
+  end.
+
 Definition json_in_strs (j : json) (l : list str) : bool :=
   match j with JStr x => str_in x l | _ => false end.
 
@@ -86,7 +94,7 @@ Definition elem_v2 (item : json) : load_result celem :=
               else if str_eqb ty (s "sgx_attestation_key") then
                 match nonempty_hex_json (jget (s "message") m),
                       nonempty_hex_json (jget (s "key") m),
-                      nonempty_hex_json (jget (s "auth_data") m),
+                      hex_or_empty_json (jget (s "auth_data") m),
                       nonempty_hex_json (jget (s "signature") m) with
                 | Some msg, Some k, Some ad, Some sg =>
                     LOk (mkElem nm sb KAttKey None (canon_hex msg) (canon_hex sg) (canon_hex k)
